@@ -543,6 +543,21 @@ func fragBudget(g *Gen, n int, o *Out) {
 				break
 			}
 		}
+		// repeated budgets: the last one wins, and a last budget of 0 lifts an earlier one
+		{
+			small := uint64(1 + len(in)%7)
+			ev1, err1 := bexpr.CreateEvaluator(in, bexpr.WithMaxExpressions(small), bexpr.WithMaxExpressions(0))
+			ev2, err2 := bexpr.CreateEvaluator(in, nil, bexpr.WithMaxExpressions(small), bexpr.WithTagName("json"), bexpr.WithMaxExpressions(N+3))
+			ev3, err3 := bexpr.CreateEvaluator(in, bexpr.WithMaxExpressions(0), bexpr.WithMaxExpressions(N+3), bexpr.WithMaxExpressions(small))
+			acc := strings.HasPrefix(unl, "ok")
+			if (err1 == nil) != acc || (ev1 != nil) != acc || (err2 == nil) != acc || (ev2 != nil) != acc {
+				o.finding(Finding{Property: "C11", Kind: "failing-input", What: fmt.Sprintf("a later budget of 0 (or >= N) does not override an earlier budget of %d", small), Request: "parse 0 " + hx(in)})
+				o.finding(Finding{Property: "C18", Kind: "failing-input", What: fmt.Sprintf("the last of repeated WithMaxExpressions options does not win (earlier budget %d)", small), Request: "parse 0 " + hx(in)})
+			}
+			if small < N && (err3 == nil || ev3 != nil) {
+				o.finding(Finding{Property: "C11", Kind: "failing-input", What: fmt.Sprintf("a later budget of %d < N=%d does not override earlier larger ones", small, N), Request: fmt.Sprintf("parse %d %s", small, hx(in))})
+			}
+		}
 		// zero is unlimited through the public option
 		ev, err := bexpr.CreateEvaluator(in, bexpr.WithMaxExpressions(0))
 		if (err == nil) != strings.HasPrefix(unl, "ok") || (ev != nil) != (err == nil) {
